@@ -1,5 +1,84 @@
-import Toq.Driver.Util
-/-! Driver handlers for C11 (stub; filled in by the owner of this property). -/
+import Toq.Driver.QJson
+import Toq.Model.Exclusion
+/-! Driver front end for C11 (state exclusion certificate checkers).
+
+Ops (matrices in the `QJson` dyadic encoding, rationals as `[num, den]` or an integer):
+
+* `excl_primal {"d":d,"rho":[mat…],"p":[rat…],"M":[mat…],"LM":[mat…]}`
+* `excl_dual   {"d":d,"rho":[mat…],"p":[rat…],"Y":mat,"LY":[mat…]}`
+
+Answer `{"ok":[num,den]}` (the exact objective value returned by the verified checker) or
+`{"reject":"<first failed condition>"}`.  The verdict is always the one of the verified checker of
+`Toq.Model.Exclusion`; the diagnostic below is only used to word a rejection and re-evaluates the same
+named conditions. -/
+open Lean Toq.Discrim Toq.Excl EMat
+
 namespace Toq.Driver.C11
-def handlers : List (String × Handler) := []
+
+/-- first index at which `p` fails -/
+def firstFail (k : Nat) (p : Fin k → Bool) : Option Nat :=
+  ((List.finRange k).find? fun i => !p i).map (·.val)
+
+/-- why `psdCert A L` fails (`none` when it holds) -/
+def psdWhy {n k : Nat} (A : EMat n n) (L : EMat n k) : Option String :=
+  if !A.isHermitian then some "not_hermitian"
+  else
+    let R := A - L.mul L.ct
+    if !R.isHermitian then some "residual_not_hermitian"
+    else
+      match firstFail n fun i =>
+          decide (sumFinQ n (fun j => if j = i then 0 else (R.get i j).abs1) ≤ (R.get i i).re) with
+      | some i => some s!"residual_not_diag_dominant_row_{i}"
+      | none => if psdCert A L then none else some "psdCert_failed"
+
+/-- first `i < k` whose PSD certificate fails, with the reason -/
+def firstPsdFail {n m : Nat} (k : Nat) (A : Fin k → EMat n n) (L : Fin k → EMat n m) : Option (Nat × String) :=
+  (List.finRange k).findSome? fun i => (psdWhy (A i) (L i)).map fun s => (i.val, s)
+
+def lenWhy (k : Nat) (named : List (String × Nat)) : Option String :=
+  (named.find? fun x => x.2 != k).map fun x => s!"length_{x.1}_{x.2}_expected_{k}"
+
+def answer (r : Option Rat) (why : Unit → String) : Json :=
+  match r with
+  | some v => Json.mkObj [("ok", ratJson v)]
+  | none => reject (why ())
+
+def hExclPrimal : Handler := fun j => do
+  let d ← getNat j "d"
+  let rho ← getEMatList j "rho" d d
+  let p ← getRatList j "p"
+  let M ← getEMatList j "M" d d
+  let LM ← getEMatList j "LM" d d
+  let ens : Ensemble d := ⟨rho, p⟩
+  let k := ens.size
+  return answer (checkExclPrimal ens M LM) fun _ =>
+    match lenWhy k [("p", p.length), ("M", M.length), ("LM", LM.length)] with
+    | some s => s
+    | none =>
+      match firstPsdFail k (fun i => matAt M i) (fun i => matAt LM i) with
+      | some (i, s) => s!"M[{i}]_{s}"
+      | none =>
+        if !povmSumOk k (fun i => matAt M i) then "sum_M_not_identity" else "rejected"
+
+def hExclDual : Handler := fun j => do
+  let d ← getNat j "d"
+  let rho ← getEMatList j "rho" d d
+  let p ← getRatList j "p"
+  let Y ← getEMat j "Y" d d
+  let LY ← getEMatList j "LY" d d
+  let ens : Ensemble d := ⟨rho, p⟩
+  let k := ens.size
+  return answer (checkExclDual ens Y LY) fun _ =>
+    match lenWhy k [("p", p.length), ("LY", LY.length)] with
+    | some s => s
+    | none =>
+      if !Y.isHermitian then "Y_not_hermitian"
+      else
+        match firstPsdFail k (fun i => smul (ens.prob i) (ens.state i) - Y) (fun i => matAt LY i) with
+        | some (i, s) => s!"p_rho_minus_Y[{i}]_{s}"
+        | none => "rejected"
+
+def handlers : List (String × Handler) :=
+  [("excl_primal", hExclPrimal), ("excl_dual", hExclDual)]
+
 end Toq.Driver.C11
